@@ -584,6 +584,10 @@ func (in *inliner) tryInline(file *ast.File, fd *ast.FuncDecl, s, next ast.Stmt,
 		}
 		cd, recv := in.inlinable(ce, cands)
 		if cd == nil {
+			// return g(…, f(args), …): hoist the helper call that is a direct argument
+			if repl, ok := in.hoistArg(file, ce, cands, func(newCall *ast.CallExpr) ast.Stmt { return &ast.ReturnStmt{Return: st.Return, Results: []ast.Expr{newCall}} }); ok {
+				return repl, false, true
+			}
 			return nil, false, false
 		}
 		ex, ok := in.expand(file, cd, recv, ce, nil, nil)
